@@ -13,4 +13,5 @@ PROPS = {
     "C06": P(["drain"]),
     "C07": P(["pipe"]),
     "C08": P(["pipe"]),
+    "C09": P(["hostile", "pipe"], panic_owner="C09"),
 }
